@@ -6,7 +6,7 @@
 (* significand width, so implementation results must equal these values    *)
 (* bit for bit.  TLC integers are 32-bit: an overflow is a loud TLC error. *)
 (***************************************************************************)
-EXTENDS Naturals, Integers, Sequences, TLC
+EXTENDS Naturals, Integers, Sequences, TLC, IOUtils
 
 Pow2[k \in 0..30] == IF k = 0 THEN 1 ELSE 2 * Pow2[k-1]
 
@@ -30,7 +30,9 @@ Abs(x) == IF x < 0 THEN 0 - x ELSE x
 (* TLC never overflows.  Every intermediate value of the specification is  *)
 (* therefore below 2^31, far inside the 53-bit significand of f64.         *)
 (***************************************************************************)
-Lim == 1073741823                      \* 2^30 - 1
+\* 2^30 - 1 for the f64 build; the f32 checks (C19) lower it through the environment (2^22 - 1, so that
+\* every intermediate of the specification stays far inside the 24-bit significand)
+Lim == IF "VERIF_LIM" \in DOMAIN IOEnv THEN atoi(IOEnv.VERIF_LIM) ELSE 1073741823
 Huge == [m |-> 0, e |-> 100000]
 IsHuge(a) == a.e = 100000
 
